@@ -273,6 +273,27 @@ CLAIMED.update({
 })
 
 
+CLAIMED.update({
+    "C12": dict(
+        engine="mirsem",
+        technique="symbolic execution of the rustc MIR of SideEffectChecker::is_impure (the purity test that licenses HIROptimizer::eliminate_unused_def) on HIR node shapes built in the "
+                  "field order read from hir.rs, with opaque sub-expressions under the induction hypothesis 'effectful implies reported impure'; procedure-ness of callee types and method "
+                  "names are solver booleans; z3 decides that the test answers true whenever the node is itself a procedure call or an eagerly evaluated child is effectful; "
+                  "counterexamples are instantiated as programs, lowered by the real front end, given to the real is_impure and run at -o 0 / -o 1; the same programs validate the encoding",
+        category="other",
+        text="Kernel-level partial claim on 'dropping unused definitions never removes a side effect': for every kind of initialiser node in the decided fragment (calls with positional, "
+             "variadic and keyword arguments, method calls, binary and unary operators, list / tuple / set / dict literals incl. the with-length forms, records, type ascriptions, "
+             "attribute accesses, nested variable definitions, blocks, lambdas) and arbitrary sub-expressions, the purity test reports the node impure whenever evaluating it evaluates "
+             "a procedure call - the call itself (callee of procedure type or procedural method name, the criterion of check_expr) or any eagerly evaluated child; by induction this "
+             "covers expression trees of any depth. The link 'a definition is dropped only if unreferenced and pure' is read from eliminate_unused_def. The reference index, the other "
+             "passes (discarded variables), code generation at each level, and ClassDef / PatchDef / ReDef / Import initialisers are not decided.",
+        note="Trusts rustc's MIR dump, engines/mirsem.py + mirflow.py, z3, the list of eagerly evaluated children per node kind written in props/c12.py (stated in the evidence), and std "
+             "contract models for Vec / slice / Option / iterator adaptors. The encoding is validated per run: ~40 programs (each shape with every pure/effectful assignment of its "
+             "children) are lowered by the real front end and the real is_impure must answer what the symbolic execution predicts (cargo test on the scratch copy).",
+        design="0b/C12"),
+})
+
+
 def load_na():
     p = os.path.join(VERIF, "data", "not_applicable.json")
     return json.load(open(p))
